@@ -253,7 +253,7 @@ theorem struct1_all : (s : Stmt) → FragT s = true → Struct1 s
   | .put m v lv, h => struct1_simple _ (by simpa [FragT] using h) (by intros; simp) (by intros; simp) (by intros; simp)
   | .delete t, h => struct1_simple _ (by simpa [FragT] using h) (by intros; simp) (by intros; simp) (by intros; simp)
   | .hilite t, h => struct1_simple _ (by simpa [FragT] using h) (by intros; simp) (by intros; simp) (by intros; simp)
-  | .mcall .., h => by simp [FragT] at h
+  | .mcall o m as, h => struct1_simple _ (by simpa [FragT] using h) (by intros; simp) (by intros; simp) (by intros; simp)
   | .tell .., h => by simp [FragT] at h
   | .repeatIn .., h => by simp [FragT] at h
   | .exitRepeat, h => by simp [FragT] at h
